@@ -1,1 +1,128 @@
-//! Hooks for property C17 (empty until needed).
+//! Hooks for property C17: build the in-memory `Index` from index files in each
+//! `IndexType` and expose `has` / `get_id` / `total_size` / `into_iter`; write crafted
+//! index files into an opened repository and query the index the repository loads.
+use crate::{
+    Id,
+    backend::decrypt::DecryptWriteBackend,
+    blob::{BlobId, BlobType},
+    error::RusticResult,
+    index::{
+        GlobalIndex, ReadIndex,
+        binarysorted::{Index, IndexCollector, IndexType},
+    },
+    repofile::indexfile::{IndexFile, IndexPack},
+    repository::{IndexedTree, Open, Repository},
+};
+
+/// One answer of `get_id` in plain data.
+#[derive(Debug, Clone, PartialEq, Eq)]
+pub struct Answer {
+    pub is_tree: bool,
+    pub pack: Id,
+    pub offset: u32,
+    pub length: u32,
+    pub uncompressed_length: Option<u32>,
+}
+
+fn tpe(is_tree: bool) -> BlobType {
+    if is_tree { BlobType::Tree } else { BlobType::Data }
+}
+
+fn answer(ie: crate::index::IndexEntry, asked_tree: bool) -> Answer {
+    // `blob_type` is what `read_data` uses to decide cacheability: expose it through that
+    let is_tree = ie == crate::index::IndexEntry::new(BlobType::Tree, ie.pack, ie.location);
+    let _ = asked_tree;
+    Answer {
+        is_tree,
+        pack: ie.pack.into_inner(),
+        offset: ie.location.offset,
+        length: ie.location.length,
+        uncompressed_length: ie.location.uncompressed_length.map(std::num::NonZeroU32::get),
+    }
+}
+
+/// mode: 0 = Full, 1 = DataIds, 2 = OnlyTrees
+fn index_type(mode: u8) -> IndexType {
+    match mode {
+        0 => IndexType::Full,
+        1 => IndexType::DataIds,
+        _ => IndexType::OnlyTrees,
+    }
+}
+
+/// An `Index` (as produced by `IndexCollector::into_index`) behind an opaque handle.
+pub struct IndexHandle(Index);
+
+impl IndexHandle {
+    /// The loop of `GlobalIndex::new_from_collector` on already decoded files:
+    /// one `collector.extend(file.packs)` per file, then `into_index`.
+    pub fn from_files(mode: u8, files: &[IndexFile]) -> Self {
+        let mut collector = IndexCollector::new(index_type(mode));
+        for f in files {
+            collector.extend(f.packs.clone());
+        }
+        Self(collector.into_index())
+    }
+
+    /// Collector extended with arbitrary pack lists (one `extend` call per list).
+    pub fn from_pack_lists(mode: u8, lists: Vec<Vec<IndexPack>>) -> Self {
+        let mut collector = IndexCollector::new(index_type(mode));
+        for l in lists {
+            collector.extend(l);
+        }
+        Self(collector.into_index())
+    }
+
+    pub fn has(&self, is_tree: bool, id: Id) -> bool {
+        self.0.has(tpe(is_tree), &BlobId::from(id))
+    }
+
+    pub fn get_id(&self, is_tree: bool, id: Id) -> Option<Answer> {
+        self.0.get_id(tpe(is_tree), &BlobId::from(id)).map(|ie| answer(ie, is_tree))
+    }
+
+    pub fn total_size(&self, is_tree: bool) -> u64 {
+        self.0.total_size(tpe(is_tree))
+    }
+
+    /// `IntoIterator for Index`
+    pub fn into_packs(self) -> Vec<IndexPack> {
+        self.0.into_iter().collect()
+    }
+
+    /// Wrap into a `GlobalIndex` (`new_from_index`) and query through it.
+    pub fn into_global(self) -> GlobalHandle {
+        GlobalHandle(GlobalIndex::new_from_index(self.0))
+    }
+}
+
+/// A `GlobalIndex` behind an opaque handle.
+pub struct GlobalHandle(GlobalIndex);
+
+impl GlobalHandle {
+    pub fn has(&self, is_tree: bool, id: Id) -> bool {
+        self.0.has(tpe(is_tree), &BlobId::from(id))
+    }
+    pub fn get_id(&self, is_tree: bool, id: Id) -> Option<Answer> {
+        self.0.get_id(tpe(is_tree), &BlobId::from(id)).map(|ie| answer(ie, is_tree))
+    }
+    pub fn total_size(&self, is_tree: bool) -> u64 {
+        self.0.total_size(tpe(is_tree))
+    }
+}
+
+/// Store an index file in an opened repository (encrypted like every index file).
+pub fn save_index_file<S: Open>(repo: &Repository<S>, file: &IndexFile) -> RusticResult<Id> {
+    repo.dbe().save_file(file)
+}
+
+/// Queries against the index a repository loaded itself (`to_indexed`, `to_indexed_ids`).
+pub fn repo_has<S: IndexedTree>(repo: &Repository<S>, is_tree: bool, id: Id) -> bool {
+    repo.index().has(tpe(is_tree), &BlobId::from(id))
+}
+pub fn repo_get_id<S: IndexedTree>(repo: &Repository<S>, is_tree: bool, id: Id) -> Option<Answer> {
+    repo.index().get_id(tpe(is_tree), &BlobId::from(id)).map(|ie| answer(ie, is_tree))
+}
+pub fn repo_total_size<S: IndexedTree>(repo: &Repository<S>, is_tree: bool) -> u64 {
+    repo.index().total_size(tpe(is_tree))
+}
